@@ -1,9 +1,11 @@
 package engine
 
 import (
+	"context"
 	"errors"
 	"sort"
 
+	"github.com/prometheus/prometheus/promql"
 	"github.com/prometheus/prometheus/promql/parser"
 
 	"github.com/thanos-community/promql-engine/execution/parse"
@@ -101,7 +103,10 @@ func VerifH08b() {
 	c := qs[sym.Choice("query", len(qs))]
 	disable := sym.Choice("disableFallback", 2) == 1
 	rangeQ := sym.Choice("range", 2) == 1
-	e := New(Opts{DisableFallback: disable})
+	eo := Opts{DisableFallback: disable}
+	eo.Timeout = 3600000000000 // the embedded reference engine must be able to answer (native replay)
+	eo.MaxSamples = 1000000
+	e := New(eo)
 	store := &stub.Queryable{}
 	t0 := sym.Int64("t0", 0, 1<<41)
 	var q interface{}
@@ -126,6 +131,16 @@ func VerifH08b() {
 	if !disable {
 		sym.Assert("C08/accepted:"+c.q, err == nil && q != nil)
 		sym.Assert("C08/path:"+c.q, isNative == c.native)
+		if !sym.Symbolic() && !isNative && err == nil {
+			// native twin of the entry-point check (replay): the embedded reference engine
+			// answers a range query with a Matrix and an instant query with anything else
+			if pq, ok := q.(promql.Query); ok {
+				res := pq.Exec(context.Background())
+				_, isMatrix := res.Value.(promql.Matrix)
+				sym.Assert("C08/fallback-entry-point:"+c.q, res.Err != nil || isMatrix == rangeQ)
+				pq.Close()
+			}
+		}
 		// the counter and the embedded engine are modelled by the executor only
 		if sym.Symbolic() {
 			if isNative {
